@@ -1,4 +1,5 @@
-(* C32 — executable model of pkg/maintainer/spv/spv.go getProofInfo, as written: Go uint/uint64
+(* C32 — executable model of pkg/maintainer/spv/spv.go getProofInfo and of its caller
+   proveTransactions (one proving round), as written: Go uint/uint64
    arithmetic wraps modulo 2^64, big.Int.Uint64 takes the low 64 bits of the absolute value,
    big.Int.DivMod is Euclidean and panics on a zero divisor.  The epoch length is a
    parameter of the model; [Concrete] instantiates it with the constant that tools/constgen
@@ -115,9 +116,130 @@ Section Model.
     | Err, Err | Panic, Panic => true
     | _, _ => false
     end.
+
+  (* ---------- one proving round: spvMaintainer.proveTransactions, as written ----------
+     The round's unproven transactions are processed in order.  For every transaction the code
+     calls getProofInfo with the maintainer's chains (so with the Bridge's proof difficulty
+     factor, the relay epoch and the two difficulties of the round), skips the transaction when
+     the proof range is outside the relay's range or the accumulated confirmations are below the
+     required number, and otherwise submits the proof with the required number.  An error of
+     getProofInfo or of the submitter ends the round with that error.  Nothing is carried from
+     one transaction to the next. *)
+  Record rtx := { t_latest : Z; t_conf : Z; t_fail : failure; t_subfail : bool }.
+  Record round := { r_factor : Z; r_epoch : Z; r_dcur : Z; r_dprev : Z; r_txs : list rtx }.
+  Inductive tx_out := Submitted (req : Z) | Skipped.
+  Inductive round_end := Done | Failed | Panicked.
+
+  (* what getProofInfo sees for transaction [t] of round [r] *)
+  Definition tx_input (r : round) (t : rtx) : input :=
+    {| i_latest := t_latest t; i_conf := t_conf t; i_factor := r_factor r; i_epoch := r_epoch r;
+       i_dcur := r_dcur r; i_dprev := r_dprev r; i_fail := t_fail t |}.
+
+  (* the skip / submit decision of the loop body on a getProofInfo result *)
+  Definition outcome_of (res : result) : tx_out :=
+    match res with
+    | Info w acc req => if w && negb (acc <? req) then Submitted req else Skipped
+    | _ => Skipped
+    end.
+  Definition tx_outcome (r : round) (t : rtx) : tx_out := outcome_of (get_proof_info (tx_input r t)).
+
+  Definition cons_out (o : tx_out) (p : list tx_out * round_end) : list tx_out * round_end :=
+    (o :: fst p, snd p).
+
+  Fixpoint run_txs (r : round) (txs : list rtx) : list tx_out * round_end :=
+    match txs with
+    | [] => ([], Done)
+    | t :: ts =>
+        match get_proof_info (tx_input r t) with
+        | Err => ([], Failed)
+        | Panic => ([], Panicked)
+        | Info w acc req =>
+            if negb w then cons_out Skipped (run_txs r ts)
+            else if acc <? req then cons_out Skipped (run_txs r ts)
+            else if t_subfail t then ([Submitted req], Failed)
+            else cons_out (Submitted req) (run_txs r ts)
+        end
+    end.
+  Definition prove_round (r : round) : list tx_out * round_end := run_txs r (r_txs r).
+
+  (* the property on one transaction of a round, on the implementation's outcome: a submitted
+     proof lies in the relay's range, carries the minimal sufficient number of confirmations
+     ([spec_ok] above, with the ROUND's factor) and the transaction has accumulated at least as
+     many; a skipped transaction is out of the relay's range or its confirmations do not reach
+     the proof difficulty (fewer than factor headers in one epoch / accumulated work below
+     factor * dPrev across the boundary) *)
+  Definition tx_ok (i : input) (o : tx_out) : bool :=
+    if negb (in_domain i) then true else
+    match i_fail i with
+    | NoFail =>
+        match o with
+        | Submitted req => spec_ok i (Info true (i_conf i) req) && (req <=? i_conf i)
+        | Skipped =>
+            let s := i_latest i - i_conf i + 1 in
+            let e := s + i_factor i - 1 in
+            let cur := i_epoch i in
+            let in2 x := (x =? cur - 1) || (x =? cur) in
+            negb (in2 (s / L) && in2 (e / L))
+            || (if s / L =? e / L then i_conf i <? i_factor i
+                else acc_work (L - s mod L) (i_dprev i) (i_dcur i) (i_conf i) <? i_factor i * i_dprev i)
+        end
+    | _ => true
+    end.
+
+  (* the property on a round: every transaction is judged on its own, with the round's factor;
+     a round without injected failures ends normally with one outcome per transaction.  From the
+     first transaction outside the guards, or whose chain calls fail, the property is silent; a
+     failing submitter legitimately ends the round after that submission. *)
+  Fixpoint round_ok (r : round) (txs : list rtx) (outs : list tx_out) (e : round_end) : bool :=
+    match txs with
+    | [] => match outs, e with [], Done => true | _, _ => false end
+    | t :: ts =>
+        let i := tx_input r t in
+        if negb (in_domain i) then true else
+        match t_fail t with
+        | NoFail =>
+            match outs with
+            | [] => false
+            | o :: os =>
+                tx_ok i o &&
+                (match o with
+                 | Submitted _ => if t_subfail t then true else round_ok r ts os e
+                 | Skipped => round_ok r ts os e
+                 end)
+            end
+        | _ => true
+        end
+    end.
+
+  Definition tx_out_eqb (a b : tx_out) : bool :=
+    match a, b with
+    | Submitted x, Submitted y => x =? y
+    | Skipped, Skipped => true
+    | _, _ => false
+    end.
+  Fixpoint outs_eqb (a b : list tx_out) : bool :=
+    match a, b with
+    | [], [] => true
+    | x :: a', y :: b' => tx_out_eqb x y && outs_eqb a' b'
+    | _, _ => false
+    end.
+  Definition end_eqb (a b : round_end) : bool :=
+    match a, b with
+    | Done, Done | Failed, Failed | Panicked, Panicked => true
+    | _, _ => false
+    end.
 End Model.
 
-Record case := { c_in : input; c_out : result }.
+(* A case is either ONE call of getProofInfo or ONE proving round of proveTransactions.
+   [kept]: the driver's observation that every big.Int handed to the code (the factor and the
+   two difficulties; the objects are long-lived and reused by the driver's chains) still holds
+   the value it was handed out with when the call / round returns.  The model is a pure function
+   of the values, so the observation has to be [true]. *)
+Inductive case :=
+| Single (i : input) (o : result) (kept : bool)
+| Round (r : round) (outs : list tx_out) (e : round_end) (kept : bool).
+
+Inductive explained := ESingle (o : result) | ERound (outs : list tx_out) (e : round_end).
 
 Definition range_ok (i : input) : bool :=
   (0 <=? i_latest i) && (i_latest i <? two64) && (0 <=? i_conf i) && (i_conf i <? two64)
@@ -127,8 +249,31 @@ Module Concrete.
   Definition L := difficultyEpochLength.
   Definition get_proof_info := get_proof_info L.
   Definition spec_ok := spec_ok L.
+  Definition prove_round := prove_round L.
+  Definition round_ok := round_ok L.
+  (* where the property speaks (guards hold, no injected chain failure) the handed-out objects
+     must be intact as part of the property; elsewhere a modified argument is a disagreement
+     with the (pure) model *)
+  Definition speaks (i : input) : bool :=
+    in_domain i && match i_fail i with NoFail => true | _ => false end.
+  Definition single_ok (i : input) (o : result) (kept : bool) : bool :=
+    spec_ok i o && (kept || negb (speaks i)).
+  Definition round_case_ok (r : round) (outs : list tx_out) (e : round_end) (kept : bool) : bool :=
+    round_ok r (r_txs r) outs e
+    && (kept || negb (forallb (fun t => speaks (tx_input r t)) (r_txs r))).
   Definition judge (c : case) : verdict :=
-    if negb (range_ok (c_in c)) then BadCase else
-    decide (spec_ok (c_in c) (c_out c)) (result_eqb (c_out c) (get_proof_info (c_in c))).
-  Definition explain (c : case) : result := get_proof_info (c_in c).
+    match c with
+    | Single i o kept =>
+        if negb (range_ok i) then BadCase else
+        decide (single_ok i o kept) (result_eqb o (get_proof_info i) && kept)
+    | Round r outs e kept =>
+        if negb (forallb (fun t => range_ok (tx_input r t)) (r_txs r)) then BadCase else
+        decide (round_case_ok r outs e kept)
+               (outs_eqb outs (fst (prove_round r)) && end_eqb e (snd (prove_round r)) && kept)
+    end.
+  Definition explain (c : case) : explained :=
+    match c with
+    | Single i _ _ => ESingle (get_proof_info i)
+    | Round r _ _ _ => let p := prove_round r in ERound (fst p) (snd p)
+    end.
 End Concrete.
